@@ -425,5 +425,10 @@ pub fn decode_result(
     if !b.is_user_arg_type(&b.type_long_id(ty).generic_id) {
         return Val::Struct(vec![]);
     }
-    decode(b, ty, success_cells, memory, 0)
+    let v = decode(b, ty, success_cells, memory, 0);
+    // A panic wrapper carries the value as a one-element tuple.
+    match (inner.is_some(), v) {
+        (true, Val::Struct(mut items)) if items.len() == 1 => items.pop().unwrap(),
+        (_, v) => v,
+    }
 }
